@@ -369,6 +369,10 @@ func (c *Ctx) ruleGUIDFormat(rule string) {
 			}
 		}
 	}
+	if len(problems) > 0 && len(lang) == 0 {
+		c.R.Infof(rule, name(fn), "language", c.Pos(fn.Pos()), "not decided for this shape: the text is assembled in a way the string evaluator does not follow (no part of it is resolved)")
+		return
+	}
 	if len(problems) > 0 {
 		for _, sg := range lang {
 			if sg.kind == "var" && (strings.HasPrefix(sg.note, "opaque") || sg.note == "too deep") {
